@@ -85,8 +85,10 @@ def demoParams : Params :=
     base := fun _ => 0 }
 
 def demoSchedule : List Act :=
-  [ -- tx 1 runs first on the stale base value, publishes, rewinds
-    .claimExec 1, .execRead 1, .execFinish 1, .publishOne 1 1, .endPublish 1, .recordResult 1 false,
+  [ -- tx 1 runs first on the stale base value (MV miss, then committed-cache fetch), publishes,
+    -- rewinds
+    .claimExec 1, .execRead 1, .execFetch 1, .execFinish 1, .publishOne 1 1, .endPublish 1,
+    .recordResult 1 false,
     .tailTs 1, .tailLts 1,
     -- tx 0 executes and publishes x := 5, rewinds
     .claimExec 0, .execFinish 0, .publishOne 0 0, .endPublish 0, .recordResult 0 false,
@@ -99,6 +101,32 @@ def demoSchedule : List Act :=
     .valTs 1, .valCheck 1 0, .endScan 1, .finalize, .commit, .commit ]
 
 example : (run demoParams init demoSchedule).map (fun s => (s.fin, s.com, s.outcomes)) =
+    some (2, 2, [.ok [(0, 5)] 0, .ok [(1, 6)] 5]) := by decide
+
+/-! ### Non-vacuity of the non-atomic storage read: tx 1 misses in MV memory, tx 0 then executes,
+    is finalized and COMMITTED, and only then tx 1 reads the committed cache: it records value 5
+    with version `Storage` (not the block-start value 0).  Its validation fails (the location now
+    resolves to tx 0's entry), it is re-executed, and the outcomes are the in-order ones. -/
+
+def demoFetchPrefix : List Act :=
+  [ .claimExec 1, .execRead 1,
+    .claimExec 0, .execFinish 0, .publishOne 0 0, .endPublish 0, .recordResult 0 false,
+    .tailTs 0, .tailLts 0, .claimVal 0, .valTs 0, .endScan 0, .finalize, .commit,
+    .execFetch 1 ]
+
+def demoFetchSuffix : List Act :=
+  [ .execFinish 1, .publishOne 1 1, .endPublish 1, .recordResult 1 false, .tailTs 1, .tailLts 1,
+    .claimVal 1, .valTs 1, .valCheck 1 0, .endScan 1, .markOne 1 1, .endValMark 1, .tailTs 1,
+    .claimExec 1, .execRead 1, .execFinish 1, .publishOne 1 1, .endPublish 1, .recordResult 1 false,
+    .valTs 1, .valCheck 1 0, .endScan 1, .finalize, .commit ]
+
+example : (run demoParams init demoFetchPrefix).map (fun s =>
+      match s.phase 1 with
+      | .reading _ (r :: _) _ => some (r.loc, r.ver, r.val, s.com)
+      | _ => none) = some (some (0, none, 5, 1)) := by decide
+
+example : (run demoParams init (demoFetchPrefix ++ demoFetchSuffix)).map
+      (fun s => (s.fin, s.com, s.outcomes)) =
     some (2, 2, [.ok [(0, 5)] 0, .ok [(1, 6)] 5]) := by decide
 
 end Grevm.Sched
